@@ -36,7 +36,7 @@ EXC_PARENT = {
     'RuntimeError': 'Exception', 'NotImplementedError': 'RuntimeError',
     'StructError': 'Exception', 'PacketError': 'Exception', 'ByteBoundaryError': 'Exception',
     'SyntaxError': 'Exception', 'ImportError': 'Exception', 'StopIteration': 'Exception',
-    'OSError': 'Exception', 'FileNotFoundError': 'OSError', 'NameError': 'Exception', 'UnboundLocalError': 'NameError',
+    'OSError': 'Exception', 'FileNotFoundError': 'OSError', 'FileExistsError': 'OSError', 'NameError': 'Exception', 'UnboundLocalError': 'NameError',
 }
 
 
